@@ -33,7 +33,8 @@ func init() {
 		cells = append(cells, familyF3Pairs()...)
 		cells = append(cells, familyF4(th)...)
 		cells = append(cells, familyFName(th)...)
-		e.Rep.Rule("every function generated for families F1, F3, F4, F-name; oracle from the destination's go/types struct: (i) no path mentioned twice, (ii) no mentioned path a proper prefix of another, " +
+		cells = append(cells, familyIdents()...)
+		e.Rep.Rule("every function generated for families F1, F3, F4, F-name, F7 (blank and underscore-led members); oracle from the destination's go/types struct: (i) no path mentioned twice, (ii) no mentioned path a proper prefix of another, " +
 			"(iii) every accessible top-level field covered (mentioned, or all accessible members covered, recursively), (iv) no mention of a path through an inaccessible member or of an unknown path, " +
 			"(v) multiset of `no match` paths == multiset of `no assignment for` warnings on stderr, each positioned at <abs setup path>:<line of the method or of one of its notations>; " +
 			"non-trivial = function with >= 2 reachable leaves and >= 1 non-assignment line")
